@@ -63,6 +63,9 @@ type Lemma struct {
 	Body   Expr
 	Src    string
 	Proved string // "assumed" or "cvc5-induction"
+	LemmaOnly bool // active only while proving lemmas (fold direction of a definition)
+	Auto   bool   // global axiom attached to the spec functions named in its triggers
+	Pats   string
 	Line   int
 }
 
@@ -86,7 +89,7 @@ func (p *Program) parseContracts(path string, overlay []byte) error {
 		ln   int
 	}
 	var lines []lline
-	reStart := regexp.MustCompile(`^(func|interface|spec|lemma|axiom|comparable|appendlemma|fieldinv|eleminv|requires|ensures|assumes|invariant|decreases|assigns|inline|use|props|trust|check|loop|ghost|abstract|bounded|results|pure)\b`)
+	reStart := regexp.MustCompile(`^(func|interface|spec|lemma|axiom|autolemma|autoaxiom|foldaxiom|comparable|appendlemma|fieldinv|eleminv|requires|ensures|assumes|invariant|decreases|assigns|inline|use|props|trust|check|loop|ghost|abstract|bounded|results|pure)\b`)
 	for ln, raw := range rawLines {
 		t := strings.TrimSpace(raw)
 		if !strings.HasPrefix(t, "//@") {
@@ -177,6 +180,34 @@ func (p *Program) parseContracts(path string, overlay []byte) error {
 			cur = nil
 			last = nil
 			lastKind = "spec"
+			continue
+		case strings.HasPrefix(t, "foldaxiom "):
+			lm, err := parseLemmaDecl(t[10:])
+			if err != nil {
+				return fail("%v", err)
+			}
+			lm.Line = ln + 1
+			lm.Auto = true
+			lm.LemmaOnly = true
+			lm.Proved = "definition"
+			p.lemmas[lm.Name] = lm
+			cur = nil
+			last = nil
+			continue
+		case strings.HasPrefix(t, "autolemma "), strings.HasPrefix(t, "autoaxiom "):
+			lm, err := parseLemmaDecl(t[10:])
+			if err != nil {
+				return fail("%v", err)
+			}
+			lm.Line = ln + 1
+			lm.Auto = true
+			lm.Proved = "assumed"
+			if strings.HasPrefix(t, "autoaxiom ") {
+				lm.Proved = "definition"
+			}
+			p.lemmas[lm.Name] = lm
+			cur = nil
+			last = nil
 			continue
 		case strings.HasPrefix(t, "lemma "), strings.HasPrefix(t, "axiom "):
 			lm, err := parseLemmaDecl(t[6:])
@@ -472,6 +503,12 @@ func parseLemmaDecl(s string) (*Lemma, error) {
 		return nil, err
 	}
 	rest := strings.TrimSpace(s[close+1:])
+	pats := ""
+	if strings.HasPrefix(rest, "{") {
+		j := strings.Index(rest, "}")
+		pats = rest[1:j]
+		rest = strings.TrimSpace(rest[j+1:])
+	}
 	if !strings.HasPrefix(rest, ":") {
 		return nil, fmt.Errorf("lemma needs ':' body: %s", s)
 	}
@@ -480,5 +517,5 @@ func parseLemmaDecl(s string) (*Lemma, error) {
 	if err != nil {
 		return nil, err
 	}
-	return &Lemma{Name: strings.TrimSpace(s[:open]), Params: params, Body: e, Src: src}, nil
+	return &Lemma{Name: strings.TrimSpace(s[:open]), Params: params, Body: e, Src: src, Pats: pats}, nil
 }
